@@ -112,7 +112,7 @@ def _h0_case(draw, mode):
         case["at_eigenvalue"] = draw(st.booleans())
         case["shift"] = draw(st.sampled_from([0.5, -0.5, 0.25]))
     if mode == "kpm":
-        case["kpm_atol"] = draw(st.sampled_from([1e-5, 1e-6]))
+        case["kpm_atol"] = draw(st.sampled_from([1e-5, 1e-6, None]))  # None: library default (1e-5), no "atol" option
         case["n_aux"] = draw(st.integers(0, 2))
         case["max_moments"] = draw(st.sampled_from([None, None, 40]))
     return case
@@ -452,7 +452,10 @@ def _check_kpm(case, out, wlist):
     blocks = _blocks(c, R, L)
     nexp = sum(case["sizes"])
     vecs = [r.copy() for r, _ in blocks]
-    opts = {"atol": case["kpm_atol"]}
+    opts = {"atol": case["kpm_atol"]} if case["kpm_atol"] is not None else {}
+    kpm_atol = case["kpm_atol"] or 1e-5
+    if case["kpm_atol"] is None:
+        out.labels.append("kpm-default-options")
     n_aux = min(case["n_aux"], n - nexp - 2)
     if n_aux > 0:
         opts["auxiliary_vectors"] = R[:, nexp : nexp + n_aux].copy()
@@ -482,7 +485,7 @@ def _check_kpm(case, out, wlist):
         return
     res = np.diag(Eb) @ V - V @ H0 - Y @ P
     a = (E.real.max() - E.real.min()) / 2 + 1
-    tol = 50 * a * case["kpm_atol"] * (1 + float(np.abs(Y).max()))
+    tol = 50 * a * kpm_atol * (1 + float(np.abs(Y).max()))
     if float(np.abs(res).max()) > tol:
         out.fail("kpm-residual", f"KPM residual {np.abs(res).max():.3g} > {tol:.3g} (atol {case['kpm_atol']}, aux {n_aux}) and no convergence warning")
         return
